@@ -1,6 +1,7 @@
 package harness
 
 import (
+	"sort"
 	"strconv"
 
 	at "github.com/DanielSvub/anytype"
@@ -32,7 +33,7 @@ type C08Case struct {
 	Derived   int        `json:"derived,omitempty"` // >0: every Derived-th nested container is a user-defined derived type
 }
 
-var cloneMutOps = []string{"noop", "add", "insert", "replace", "delete", "pop", "clear", "reverse", "sort", "set", "unset", "oclear", "settf", "unsettf"}
+var cloneMutOps = []string{"noop", "rekey", "clearrefill", "add", "insert", "replace", "delete", "pop", "clear", "reverse", "sort", "set", "unset", "oclear", "settf", "unsettf"}
 
 func GenC08(t *rapid.T) *C08Case {
 	cfg := tfTreeCfg()
@@ -154,6 +155,17 @@ func applyCloneMut(root any, n any, m CloneMut) (applied bool) {
 	case at.List:
 		cnt := x.Count()
 		switch m.Op {
+		case "rekey":
+			// same length, different content: one element replaced (objects: one key swapped for another)
+			if cnt == 0 {
+				return false
+			}
+			x.Replace(m.A%cnt, v)
+		case "clearrefill":
+			// emptied and refilled with the same elements
+			old := x.Slice()
+			x.Clear()
+			x.Add(old...)
 		case "noop":
 			// calls that are documented no-ops: the content must not change, nor anything derived from it
 			x.Delete()
@@ -193,6 +205,23 @@ func applyCloneMut(root any, n any, m CloneMut) (applied bool) {
 		return true
 	case at.Object:
 		switch m.Op {
+		case "rekey":
+			// same number of fields, different key set
+			ks := sortedKeys(x)
+			if len(ks) == 0 {
+				return false
+			}
+			old := ks[m.A%len(ks)]
+			val := x.Get(old)
+			x.Unset(old)
+			x.Set(old+"'", val)
+		case "clearrefill":
+			// emptied and refilled with the same fields
+			d := x.Dict()
+			x.Clear()
+			for _, k := range sortedKeys2(d) {
+				x.Set(k, d[k])
+			}
 		case "noop":
 			x.Unset("\x00no-such-key")
 			x.Unset()
@@ -355,4 +384,13 @@ func init() {
 	Register("C08",
 		"trees (depth >= 2 favoured; chains up to 70 levels; built through drawn construction routes; one in five turned into a DAG by storing one reachable container a second time; one in five with nested containers that are user-defined derived types) are cloned; then 1-12 mutations are applied at a drawn container of a drawn side (original or clone): Add, Insert, Replace, Delete, Pop, Clear, Reverse, Sort (in domain), Set, Unset, Clear, and SetTF/UnsetTF from the root with well-formed paths. Oracle: clone.Equals(orig) both ways; snapshot content equal; the sets of container identities reachable from the two roots are disjoint; Clone leaves the receiver unchanged; after every mutation the OTHER side's snapshot (content bits and identities) equals its snapshot before the mutation. Non-trivial = tree with a nested container at depth >= 2 and at least one applied mutation on a non-root container. Distinct = distinct FNV-64a hash of the case JSON.",
 		GenC08, CheckC08)
+}
+
+func sortedKeys2(d map[string]any) []string {
+	ks := make([]string, 0, len(d))
+	for k := range d {
+		ks = append(ks, k)
+	}
+	sort.Strings(ks)
+	return ks
 }
